@@ -457,12 +457,13 @@ Section Record12.
     apply andb_prop in W. destruct W as [W WL]. apply andb_prop in W. destruct W as [W Wc].
     apply andb_prop in W. destruct W as [Wh Wt]. apply N.eqb_eq in Wt.
     destruct (content_roundtrip c Wc) as [ce [Ec Dc]]. rewrite Ec in WL. apply N.eqb_eq in WL.
-    unfold record_marshal. rewrite Ec.
+    unfold record_marshal, record_marshal_gen. rewrite Ec.
     destruct h as [ct [maj [mi [ep [sq [cid l]]]]]].
     pose proof (proj1 (header_wf_spec 0 ct maj mi ep sq cid l) Wh) as (H1 & H2 & H3 & H4 & H5 & H6 & H7 & H8).
     assert (Hcid : length cid = 0%nat) by (destruct (ct =? ct_cid); exact H6).
     unfold h_maj, h_min, h_epoch, h_seq, h_cid, h_len, h_ct in *; cbn [fst snd] in *.
-    rewrite Hcid. subst l. rewrite N.mod_small by exact H8. rewrite <- Wt.
+    rewrite Hcid. subst l.
+    destruct (N.ltb_spec 65535 (len ce)) as [Hbad|_]; [clear - Hbad H8; lia|]. cbn [negb andb]. rewrite N.mod_small by exact H8. rewrite <- Wt.
     destruct (sound_header 0 (mk_hdr ct maj mi ep sq cid (len ce)) ce Wh) as [he [Eh Dh]].
     rewrite Eh. exists (he ++ ce). split; [reflexivity|].
     unfold record_unmarshal. rewrite Dh. unfold h_ct, mk_hdr; cbn [fst]. rewrite Wt, Dc. reflexivity.
@@ -497,7 +498,8 @@ Section Record12.
   Proof.
     destruct x as [h c]. intros Hb Hd Hm.
     destruct (record_unmarshal_inv _ _ _ _ Hb Hd) as [r (Eh & Ec & Hr & Wh & Hct & Hcid)].
-    unfold record_marshal in Hm. destruct (content_enc hs c) as [ce|] eqn:Ece; [|discriminate].
+    unfold record_marshal, record_marshal_gen in Hm. destruct (content_enc hs c) as [ce|] eqn:Ece; [|discriminate].
+    destruct (N.ltb_spec 65535 (len ce)) as [|Hfit]; [discriminate|]. cbn [negb andb] in Hm.
     destruct (content_refix _ _ _ _ Hr Ec Ece) as [c' (Dc' & Ec' & Hc')].
     pose proof (content_dec_type _ _ _ Ec) as Wt.
     pose proof (content_dec_type _ _ _ Dc') as Wt'.
@@ -514,25 +516,32 @@ Section Record12.
     rewrite Ehe in Hm. inversion Hm; subst e; clear Hm.
     exists (h', c'). split; [|split].
     - unfold record_unmarshal. rewrite Dhe. unfold h', h_ct, mk_hdr; cbn [fst]. rewrite Wt, Dc'. reflexivity.
-    - unfold record_marshal. rewrite Ec'.
+    - unfold record_marshal, record_marshal_gen. rewrite Ec'.
+      destruct (N.ltb_spec 65535 (len ce)) as [Hbad|_]; [clear - Hbad Hfit; lia|]. cbn [negb andb].
       unfold h', h_maj, h_min, h_epoch, h_seq, h_cid, mk_hdr; cbn [fst snd length].
       rewrite Wt', <- Wt. fold (mk_hdr (content_type c) maj mi ep sq [] (len ce mod 65536)). fold h'.
       rewrite Ehe. reflexivity.
     - cbn [snd]. exact Hc'.
   Qed.
 
-  (* every accepted record whose content is not a handshake message does re-encode *)
+  (* every accepted record whose content is not a handshake message does re-encode - unless its
+     content is longer than the 16-bit length field can say (Unmarshal never looks at ContentLen,
+     F35a, so it accepts inputs longer than any record; Marshal refuses them since 9ff70b9) *)
   Theorem record_reencodes n b x : bytes_ok b = true -> record_unmarshal hs n b = Some x ->
-    is_hs (snd x) = false -> exists e, record_marshal hs x = Some e.
+    is_hs (snd x) = false ->
+    exists ce, content_enc hs (snd x) = Some ce /\
+               (len ce <= 65535 -> exists e, record_marshal hs x = Some e).
   Proof.
     destruct x as [h c]. cbn [snd]. intros Hb Hd Hh.
     destruct (record_unmarshal_inv _ _ _ _ Hb Hd) as [r (Eh & Ec & Hr & Wh & Hct & Hcid)].
     destruct (content_reencodes _ _ _ Hr Ec Hh) as [ce Ece].
+    exists ce. split; [exact Ece|]. intro Hfit.
     pose proof (content_dec_type _ _ _ Ec) as Wt.
     destruct h as [ct [maj [mi [ep [sq [cid l]]]]]].
     pose proof (proj1 (header_wf_spec n ct maj mi ep sq cid l) Wh) as (H1 & H2 & H3 & H4 & H5 & H6 & H7 & H8).
     unfold h_ct, h_cid in *; cbn [fst snd] in *. subst cid.
-    unfold record_marshal. rewrite Ece.
+    unfold record_marshal, record_marshal_gen. rewrite Ece.
+    destruct (N.ltb_spec 65535 (len ce)) as [Hbad|_]; [clear - Hbad Hfit; lia|]. cbn [negb andb].
     unfold h_maj, h_min, h_epoch, h_seq, h_cid; cbn [fst snd length].
     set (h' := mk_hdr (content_type c) maj mi ep sq [] (len ce mod 65536)).
     assert (Wh' : wf (c_header 0) h' = true).
@@ -540,6 +549,44 @@ Section Record12.
       - destruct (ct =? ct_cid); reflexivity.
       - apply N.mod_lt. lia. }
     destruct (sound_header 0 h' ce Wh') as [he [Ehe _]]. rewrite Ehe. eexists. reflexivity.
+  Qed.
+
+  (* what Marshal emits declares the true length of its content (9ff70b9) *)
+  Theorem record_marshal_declares_length h c e : record_marshal hs (h, c) = Some e ->
+    exists he ce, e = he ++ ce /\ content_enc hs c = Some ce /\ len ce <= 65535 /\
+      enc (c_header (length (h_cid h)))
+          (mk_hdr (content_type c) (h_maj h) (h_min h) (h_epoch h) (h_seq h) (h_cid h) (len ce)) = Some he.
+  Proof.
+    unfold record_marshal, record_marshal_gen. destruct (content_enc hs c) as [ce|]; [|discriminate].
+    destruct (N.ltb_spec 65535 (len ce)) as [|Hfit]; [discriminate|]. cbn [negb andb].
+    rewrite (N.mod_small (len ce) 65536) by lia.
+    destruct (enc (c_header (length (h_cid h))) _) as [he|] eqn:Ehe; [|discriminate].
+    intro E. inversion E. exists he, ce. repeat split; try reflexivity; assumption.
+  Qed.
+
+  (* REFUTED for the encoder as coded before 9ff70b9 (F77): 65546 bytes of application data were
+     written behind a header that declares 10 bytes; the datagram splitter rejects the result *)
+  Definition rec_wrap_witness : hdr * content H :=
+    (mk_hdr 23 254 253 1 5 [] 0, CAppData (repeat 90 (N.to_nat 65546))).
+
+  Theorem record_marshal_wrap_as_coded_refuted :
+    exists e, record_marshal_gen hs true rec_wrap_witness = Some e /\
+              firstn 2 (skipn 11 e) = [0; 10] /\ len e = 13 + 65546 /\
+              unpack_datagram e = None /\ record_marshal hs rec_wrap_witness = None.
+  Proof.
+    eexists. split; [reflexivity|].
+    split; [vm_compute; reflexivity|]. split; [vm_compute; reflexivity|].
+    split; vm_compute; reflexivity.
+  Qed.
+
+  (* the other side of F35a + 9ff70b9: an accepted input longer than any record has no re-encoding *)
+  Theorem record_oversize_not_reencoded :
+    exists b h d, bytes_ok b = true /\ record_unmarshal hs 0 b = Some (h, CAppData d) /\ len d = 65536 /\
+                  record_marshal hs (h, CAppData d) = None.
+  Proof.
+    exists ([23; 254; 253; 0; 1; 0; 0; 0; 0; 0; 5; 0; 0] ++ repeat 90 (N.to_nat 65536)). eexists. eexists.
+    split; [vm_compute; reflexivity|]. split; [reflexivity|].
+    split; vm_compute; reflexivity.
   Qed.
 
   (* REFUTED for the faithful model: "lengths declared inside a message are honoured" - the
